@@ -395,7 +395,7 @@ pub fn run(ctx: &mut Ctx) {
     ctx.assumptions = vec!["reference key derivation and recovery (refimpl) are correct (self-tested)".into()];
     set_cli(ctx.cli.clone(), ctx.cli_plain.clone(), ctx.root.clone());
     ctx.replay_known_and_regressions(&replay);
-    let n = ctx.tier.pick(2500, 12_000);
+    let n = ctx.tier.pick(5000, 20_000);
     ctx.shrink_iters = 150;
     ctx.run_prop("cli", n, || crate::gen::tape(500).prop_map(gen_case), judge);
     if ctx.tier == Tier::Thorough {
